@@ -510,7 +510,10 @@ class CHECK(vlib.Check):
                 "compression decision and header patch, receive side incl. inflate failure. "
                 "dataio/PacketizedProxyDataIO.cpp: Write / WriteBufferedOutput / Read state machines (size-word framing, partial child "
                 "writes and reads, busy writer, empty packets, oversize error) over a scripted byte pipe. "
-                "Not modelled: the slave gateway and Message flattening (a Message is the byte buffer handed to the tunnel), "
+                "Message level: for the tunnels used without a slave gateway (ProxyIOGateway flattens / unflattens) the buffer theorems are "
+                "composed with C01's model of Message::Flatten/Unflatten (Msg/): Gw/TunnelMsg.v, Gw/MiniTunnelMsg.v. "
+                "Not modelled: slave gateways other than none (RawDataMessageIOGateway and the harness's blob gateway are corresponded only: "
+                "a Message is then the byte buffer handed to the tunnel), "
                 "a Message for which the slave generates no bytes, allocation failures, the time-slice cut-off of the I/O loops.")
     premises = ["zlib (ZLibCodec::Deflate/Inflate with independent=true) is a Section variable of Gw/MiniTunnel.v: the theorems assume "
                 "inflate (deflate lvl x) = Some x; the model driver uses the graph of the real codec observed on the implementation's wire",
